@@ -54,6 +54,9 @@ var targets = []target{
 	{"block/manager.go", "Manager", "IsDAIncluded"},
 	{"block/manager.go", "Manager", "SetRollkitHeightToDAHeight"},
 	{"block/da_includer.go", "Manager", "incrementDAIncludedHeight"},
+	{"sequencers/single/queue.go", "", "batchKey"},
+	{"sequencers/single/queue.go", "BatchQueue", "AddBatch"},
+	{"sequencers/single/queue.go", "BatchQueue", "Next"},
 	{"types/da.go", "", "SubmitWithHelpers"},
 	{"types/da.go", "", "RetrieveWithHelpers"},
 }
@@ -196,6 +199,9 @@ func (t *tr) expr(e ast.Expr) string {
 		if x.Low == nil && x.High == nil && x.Max == nil {
 			return "(EId " + t.expr(x.X) + ")"
 		}
+		if x.Low != nil && x.High == nil && x.Max == nil {
+			return "(ESliceFrom " + t.expr(x.X) + " " + t.expr(x.Low) + ")"
+		}
 		return "(EUnknown " + q("slice "+text(x)) + ")"
 	case *ast.SelectorExpr:
 		if p, ok := t.isPkg(x.X); ok {
@@ -241,7 +247,7 @@ func (t *tr) expr(e ast.Expr) string {
 				if ownPkgs[p] {
 					name = f.Sel.Name
 				}
-				if name == "fmt.Errorf" || name == "errors.New" {
+				if name == "fmt.Errorf" || name == "errors.New" || name == "fmt.Printf" {
 					return "(ECall " + q(name) + " [])"
 				}
 				return "(ECall " + q(name) + " " + t.exprs(x.Args) + ")"
@@ -282,7 +288,10 @@ func (t *tr) stmt(s ast.Stmt) string {
 		if c, ok := x.X.(*ast.CallExpr); ok && isLogger(c.Fun) {
 			return "(SSkip " + q("log") + ")"
 		}
-		if _, ok := x.X.(*ast.CallExpr); ok {
+		if c, ok := x.X.(*ast.CallExpr); ok {
+			if f := text(c.Fun); strings.HasSuffix(f, ".Lock") || strings.HasSuffix(f, ".RLock") || strings.HasSuffix(f, ".Unlock") || strings.HasSuffix(f, ".RUnlock") {
+				return "(SSkip " + q("mutex") + ")"
+			}
 			return "(SExpr " + t.expr(x.X) + ")"
 		}
 		return "(SUnknown " + q("expression statement "+text(x)) + ")"
@@ -307,7 +316,34 @@ func (t *tr) stmt(s ast.Stmt) string {
 			}
 		}
 		return "(SUnknown " + q("declaration "+text(x)) + ")"
+	case *ast.IncDecStmt:
+		one := "(EInt 1)"
+		op := "OAdd"
+		if x.Tok == token.DEC {
+			op = "OSub"
+		}
+		switch l := x.X.(type) {
+		case *ast.Ident:
+			return "(SOpAssign " + q(l.Name) + " " + op + " " + one + ")"
+		case *ast.SelectorExpr:
+			if id, ok := l.X.(*ast.Ident); ok {
+				return "(SAssignField " + q(id.Name) + " " + q(l.Sel.Name) + " (EBin " + op + " " + t.expr(l) + " " + one + "))"
+			}
+		}
+		return "(SUnknown " + q("inc/dec "+text(x)) + ")"
+	case *ast.DeferStmt:
+		if strings.HasSuffix(text(x.Call.Fun), ".Unlock") || strings.HasSuffix(text(x.Call.Fun), ".RUnlock") {
+			return "(SSkip " + q("mutex") + ")" // mutual exclusion is C13's subject, not a decision
+		}
+		return "(SUnknown " + q("defer "+text(x)) + ")"
 	case *ast.AssignStmt:
+		if len(x.Lhs) == 1 && len(x.Rhs) == 1 && x.Tok == token.ASSIGN {
+			if sel, ok := x.Lhs[0].(*ast.SelectorExpr); ok {
+				if id, ok := sel.X.(*ast.Ident); ok {
+					return "(SAssignField " + q(id.Name) + " " + q(sel.Sel.Name) + " " + t.expr(x.Rhs[0]) + ")"
+				}
+			}
+		}
 		names, ok := lhsNames(x.Lhs)
 		if !ok {
 			return "(SUnknown " + q("assignment "+text(x)) + ")"
